@@ -1001,4 +1001,291 @@ theorem all_and3 {α : Type} (xs : List α) (p q r : α → Bool) :
     (xs.all p && xs.all q && xs.all r) = xs.all (fun x => p x && q x && r x) := by
   rw [all_and, all_and]
 
+/-! ## Fragment declarations (validate_fragments.go:16-63) -/
+
+theorem typeCondition_nil (S : Schema) (tc : String) (p : Pos) :
+    typeConditionErrors S tc p = [] ↔ ((S.find tc).isSome = true ∧ Spec.isComposite S tc = true) := by
+  unfold typeConditionErrors Spec.isComposite
+  have hk : Model.kindOf S tc = Spec.kindOf S tc := rfl
+  rw [hk]
+  unfold Spec.kindOf
+  cases hf : S.find tc with
+  | none => simp
+  | some td =>
+    by_cases hc : td.kind.isComposite = true <;> simp [hc]
+
+theorem fragDeclLoop_nil (S : Schema) (seen : List String) (fs : List FragInfo) :
+    fragDeclLoop S seen fs = [] ↔
+      ((∀ f ∈ fs, f.name ∉ seen) ∧ Spec.nodup (fs.map (·.name)) = true ∧
+        (∀ f ∈ fs, (S.find f.tc).isSome = true ∧ Spec.isComposite S f.tc = true)) := by
+  induction fs generalizing seen with
+  | nil => simp [fragDeclLoop, Spec.nodup]
+  | cons f rest ih =>
+    simp only [fragDeclLoop, List.append_eq_nil_iff, ih, typeCondition_nil]
+    by_cases hs : f.name ∈ seen
+    · simp [hs]
+    · simp only [List.contains_eq_mem, hs, decide_false, Bool.false_eq_true, if_false, true_and,
+        nodup_cons, List.map_cons, List.mem_cons, forall_eq_or_imp, not_false_eq_true,
+        Bool.and_eq_true, Bool.not_eq_true', List.mem_append, List.mem_singleton,
+        List.not_mem_nil, or_false, not_or, List.mem_map, decide_eq_false_iff_not, not_exists, not_and]
+      constructor
+      · rintro ⟨⟨h1, h2⟩, h3, h4, h5⟩
+        exact ⟨fun g hg => (h3 g hg).1, ⟨fun g hg he => (h3 g hg).2 he, h4⟩, ⟨h1, h2⟩, h5⟩
+      · rintro ⟨h1, ⟨h2, h3⟩, ⟨h4, h5⟩, h6⟩
+        exact ⟨⟨h4, h5⟩, fun g hg => ⟨h1 g hg, fun he => h2 g hg he⟩, h3, h6⟩
+
+/-- The values of `fragmentsByName` carry exactly the names of all fragment definitions not seen before. -/
+theorem firstDefs_names (seen : List String) (fs : List FragInfo) (P : String → Prop) :
+    (∀ f ∈ firstDefs seen fs, P f.name) ↔ (∀ f ∈ fs, f.name ∉ seen → P f.name) := by
+  induction fs generalizing seen with
+  | nil => simp [firstDefs]
+  | cons f rest ih =>
+    unfold firstDefs
+    by_cases hs : f.name ∈ seen
+    · simp only [List.contains_eq_mem, hs, decide_true, if_true, ih, List.mem_cons, forall_eq_or_imp,
+        not_true_eq_false, false_imp_iff, true_and]
+    · simp only [List.contains_eq_mem, hs, decide_false, Bool.false_eq_true, if_false, List.mem_cons,
+        forall_eq_or_imp, ih, not_false_eq_true, true_imp_iff, List.mem_append, List.mem_singleton,
+        List.not_mem_nil, or_false, not_or]
+      constructor
+      · rintro ⟨h1, h2⟩
+        refine ⟨h1, fun g hg hgs => ?_⟩
+        by_cases he : g.name = f.name
+        · rw [he]; exact h1
+        · exact h2 g hg ⟨hgs, he⟩
+      · rintro ⟨h1, h2⟩
+        exact ⟨h1, fun g hg hgs => h2 g hg hgs.1⟩
+
+def condErrOcc (S : Schema) : Occ → List Err
+  | .inline _ (some (t, p)) _ _ => typeConditionErrors S t p
+  | _ => []
+
+mutual
+theorem inlineCond_sel_flat (S : Schema) : ∀ (scope : Option String) (sel : Selection),
+    inlineCondSel S sel = (occSel S scope sel).flatMap (condErrOcc S)
+  | scope, .field al n np args dirs none => by simp [inlineCondSel, occSel, condErrOcc]
+  | scope, .field al n np args dirs (some ss) => by
+    simp [inlineCondSel, occSel, condErrOcc, inlineCond_set_flat S (Spec.fieldScope S scope n) ss]
+  | scope, .spread n np dirs p => by simp [inlineCondSel, occSel, condErrOcc]
+  | scope, .inline none dirs ss p => by
+    simp [inlineCondSel, occSel, condErrOcc, inlineCond_set_flat S (Spec.inlineScope S scope none) ss]
+  | scope, .inline (some (t, tp)) dirs ss p => by
+    simp [inlineCondSel, occSel, condErrOcc, inlineCond_set_flat S (Spec.inlineScope S scope (some (t, tp))) ss]
+theorem inlineCond_set_flat (S : Schema) : ∀ (scope : Option String) (ss : SelSet),
+    inlineCondSet S ss = (occSet S scope ss).flatMap (condErrOcc S)
+  | scope, .mk sels p => by simp [inlineCondSet, occSet, inlineCond_sels_flat S scope sels]
+theorem inlineCond_sels_flat (S : Schema) : ∀ (scope : Option String) (sels : List Selection),
+    inlineCondSels S sels = (occSels S scope sels).flatMap (condErrOcc S)
+  | scope, [] => by simp [inlineCondSels, occSels]
+  | scope, s :: rest => by
+    simp [inlineCondSels, occSels, inlineCond_sel_flat S scope s, inlineCond_sels_flat S scope rest]
+end
+
+abbrev spreadNameOcc := Spec.spreadNameOf
+
+mutual
+theorem spreadNames_sel_flat (S : Schema) : ∀ (scope : Option String) (sel : Selection),
+    Model.spreadNamesSel sel = (occSel S scope sel).filterMap spreadNameOcc
+  | scope, .field al n np args dirs none => by simp [Model.spreadNamesSel, occSel, spreadNameOcc, Spec.spreadNameOf]
+  | scope, .field al n np args dirs (some ss) => by
+    simp [Model.spreadNamesSel, occSel, spreadNameOcc, Spec.spreadNameOf, List.filterMap_cons, spreadNames_set_flat S (Spec.fieldScope S scope n) ss]
+  | scope, .spread n np dirs p => by simp [Model.spreadNamesSel, occSel, spreadNameOcc, Spec.spreadNameOf]
+  | scope, .inline tc dirs ss p => by
+    simp [Model.spreadNamesSel, occSel, spreadNameOcc, Spec.spreadNameOf, List.filterMap_cons, spreadNames_set_flat S (Spec.inlineScope S scope tc) ss]
+theorem spreadNames_set_flat (S : Schema) : ∀ (scope : Option String) (ss : SelSet),
+    Model.spreadNamesSet ss = (occSet S scope ss).filterMap spreadNameOcc
+  | scope, .mk sels p => by simp [Model.spreadNamesSet, occSet, spreadNames_sels_flat S scope sels]
+theorem spreadNames_sels_flat (S : Schema) : ∀ (scope : Option String) (sels : List Selection),
+    Model.spreadNamesSels sels = (occSels S scope sels).filterMap spreadNameOcc
+  | scope, [] => by simp [Model.spreadNamesSels, occSels]
+  | scope, s :: rest => by
+    simp [Model.spreadNamesSels, occSels, spreadNames_sel_flat S scope s, spreadNames_sels_flat S scope rest]
+end
+
+
+/-- The model's FragInfo list and the specification's fragment list describe the same definitions. -/
+theorem fragsOf_map (D : Document) :
+    (Model.fragsOf D).map (fun f => (f.name, f.tc, f.sel)) = Spec.fragDefs D := by
+  unfold Model.fragsOf Spec.fragDefs
+  induction D with
+  | nil => rfl
+  | cons d rest ih =>
+    cases d with
+    | op kind name vars dirs sel => simpa [List.filterMap_cons] using ih
+    | frag n np tc tcp dirs sel p => simp [List.filterMap_cons, ih]
+
+theorem fragsOf_names (D : Document) : (Model.fragsOf D).map (·.name) = Spec.fragNames D := by
+  unfold Spec.fragNames
+  rw [← fragsOf_map, List.map_map]
+  rfl
+
+theorem usedFragments_eq (S : Schema) (D : Document) : Model.usedFragments D = Spec.spreadNames S D := by
+  unfold Model.usedFragments Spec.spreadNames Spec.selOccs
+  induction D with
+  | nil => rfl
+  | cons d rest ih =>
+    simp only [List.flatMap_cons, List.filterMap_append, ih]
+    congr 1
+    rw [occDef_eq, spreadNames_set_flat S (specDefScope S d)]
+
+
+theorem all_mem_fragDefs (D : Document) (P : String → String → Prop) :
+    (∀ f ∈ Model.fragsOf D, P f.name f.tc) ↔ (∀ f ∈ Spec.fragDefs D, P f.1 f.2.1) := by
+  rw [← fragsOf_map]
+  simp only [List.mem_map, forall_exists_index, and_imp, forall_apply_eq_imp_iff₂]
+
+/-! ## Fragment spreads: target defined, spread possible (validate_fragments.go:104-153) -/
+
+def spreadOcc (S : Schema) (D : Document) : Occ → List Err
+  | .spread scope n np _ _ => spreadTargetErrors S D scope n np
+  | .inline scope (some (t, p)) _ _ => validateSpread S t p scope
+  | _ => []
+
+mutual
+theorem spreads_sel_flat (S : Schema) (D : Document) : ∀ (scope : Option String) (sel : Selection),
+    spreadsSel S D scope sel = (moccSel S scope sel).flatMap (spreadOcc S D)
+  | scope, .field al n np args dirs none => by simp [spreadsSel, moccSel, spreadOcc]
+  | scope, .field al n np args dirs (some ss) => by
+    simp [spreadsSel, moccSel, spreadOcc, spreads_set_flat S D (Model.innerScope S scope n) ss]
+  | scope, .spread n np dirs p => by simp [spreadsSel, moccSel, spreadOcc]
+  | scope, .inline none dirs ss p => by
+    simp [spreadsSel, moccSel, spreadOcc, spreads_set_flat S D (Model.inlineScope S scope none) ss]
+  | scope, .inline (some (t, tp)) dirs ss p => by
+    simp [spreadsSel, moccSel, spreadOcc, spreads_set_flat S D (Model.inlineScope S scope (some (t, tp))) ss]
+theorem spreads_set_flat (S : Schema) (D : Document) : ∀ (scope : Option String) (ss : SelSet),
+    spreadsSet S D scope ss = (moccSet S scope ss).flatMap (spreadOcc S D)
+  | scope, .mk sels p => by simp [spreadsSet, moccSet, spreads_sels_flat S D scope sels]
+theorem spreads_sels_flat (S : Schema) (D : Document) : ∀ (scope : Option String) (sels : List Selection),
+    spreadsSels S D scope sels = (moccSels S scope sels).flatMap (spreadOcc S D)
+  | scope, [] => by simp [spreadsSels, moccSels]
+  | scope, s :: rest => by
+    simp [spreadsSels, moccSels, spreads_sel_flat S D scope s, spreads_sels_flat S D scope rest]
+end
+
+theorem possibleTypes_eq (S : Schema) (n : String) : Model.possibleTypes S n = Spec.possibleTypes S n := rfl
+
+theorem primaryFree_ite_primary (b : Bool) (pos : Pos) (msg : String) :
+    primaryFree (if b = true then [] else [newError pos msg]) = b := by
+  cases b <;> rfl
+
+/-- `validateSpread` under a composite parent. -/
+theorem validateSpread_ok {S : Schema} {p : String} (hp : Spec.isComposite S p = true) (tc : String) (tcpos : Pos) :
+    primaryFree (validateSpread S tc tcpos (some p)) =
+      (!(Spec.isComposite S p && Spec.isComposite S tc) ||
+        Spec.intersects (Spec.possibleTypes S tc) (Spec.possibleTypes S p)) := by
+  unfold validateSpread
+  simp only [isCompositeName_eq, hp, Bool.not_true, Bool.false_eq_true, if_false, Bool.true_and,
+    possibleTypes_eq, Spec.intersects]
+  by_cases hc : Spec.isComposite S tc = true
+  · simp only [hc, if_true, Bool.not_true, Bool.false_or]
+    exact primaryFree_ite_primary _ _ _
+  · simp [hc, primaryFree]
+
+/-- With unique fragment names the last definition of a name is the first. -/
+theorem find_reverse_unique {α : Type} (xs : List α) (key : α → String) (n : String)
+    (h : Spec.nodup (xs.map key) = true) :
+    xs.reverse.find? (fun x => key x = n) = xs.find? (fun x => key x = n) := by
+  induction xs with
+  | nil => rfl
+  | cons x rest ih =>
+    simp only [List.map_cons, nodup_cons, Bool.and_eq_true, Bool.not_eq_true'] at h
+    simp only [List.reverse_cons, List.find?_append, ih h.2, List.find?_cons]
+    by_cases hx : key x = n
+    · simp only [hx, decide_true]
+      have : rest.find? (fun y => key y = n) = none := by
+        rw [List.find?_eq_none]
+        intro y hy
+        simp only [decide_eq_true_eq]
+        intro he
+        have hc := h.1
+        simp only [List.contains_eq_mem, List.mem_map, decide_eq_false_iff_not, not_exists, not_and] at hc
+        exact hc y hy (he.trans hx.symm)
+      simp [this]
+    · simp only [hx, decide_false]
+      cases rest.find? (fun y => key y = n) <;> simp
+
+theorem fragLast_eq_first {D : Document} (h : Spec.fragmentNamesUnique D = true) (n : String) :
+    Model.fragLast D n = Model.fragFirst D n := by
+  unfold Model.fragLast Model.fragFirst
+  unfold Spec.fragmentNamesUnique at h
+  rw [← fragsOf_names] at h
+  exact find_reverse_unique (Model.fragsOf D) (·.name) n h
+
+theorem fragFirst_findFrag (D : Document) (n : String) :
+    Spec.findFrag D n = (Model.fragFirst D n).map (fun f => (f.tc, f.sel)) := by
+  unfold Spec.findFrag Model.fragFirst
+  rw [← fragsOf_map]
+  induction Model.fragsOf D with
+  | nil => rfl
+  | cons f rest ih =>
+    simp only [List.map_cons, List.find?_cons]
+    by_cases hf : f.name = n
+    · simp [hf]
+    · simp only [hf, decide_false]
+      exact ih
+
+theorem fragFirst_none_iff (D : Document) (n : String) :
+    Model.fragFirst D n = none ↔ (Spec.fragNames D).contains n = false := by
+  unfold Model.fragFirst
+  rw [← fragsOf_names, List.find?_eq_none]
+  simp only [decide_eq_true_eq, List.contains_eq_mem, List.mem_map, decide_eq_false_iff_not,
+    not_exists, not_and]
+
+/-- §5.5.2.1 and §5.5.2.3 at one occurrence. -/
+def spreadOkAt (S : Schema) (D : Document) (o : Occ) : Bool :=
+  (match Spec.spreadNameOf o with
+   | some n => (Spec.fragNames D).contains n
+   | none => true) &&
+  (match o with
+   | .spread (some p) n _ _ _ =>
+     (match Spec.findFrag D n with
+      | some (tc, _) =>
+        !(Spec.isComposite S p && Spec.isComposite S tc) || Spec.intersects (Spec.possibleTypes S tc) (Spec.possibleTypes S p)
+      | none => true)
+   | .inline (some p) (some (tc, _)) _ _ =>
+     !(Spec.isComposite S p && Spec.isComposite S tc) || Spec.intersects (Spec.possibleTypes S tc) (Spec.possibleTypes S p)
+   | _ => true)
+
+theorem spreadOcc_ok {S : Schema} {D : Document} (hu : Spec.fragmentNamesUnique D = true) {o : Occ}
+    (hinv : Inv S (occParent o)) : primaryFree (spreadOcc S D o) = spreadOkAt S D o := by
+  cases o with
+  | field => simp [spreadOcc, spreadOkAt, Spec.spreadNameOf, primaryFree]
+  | spread parent n np dirs p =>
+    obtain ⟨q, hq, hp⟩ := hinv
+    simp only [occParent] at hq
+    subst hq
+    simp only [spreadOcc, spreadTargetErrors, spreadOkAt, Spec.spreadNameOf, fragLast_eq_first hu, fragFirst_findFrag]
+    cases hf : Model.fragFirst D n with
+    | none =>
+      have := (fragFirst_none_iff D n).1 hf
+      simp only [this]
+      simp [primaryFree, newError]
+    | some f =>
+      have : (Spec.fragNames D).contains n = true := by
+        cases hc : (Spec.fragNames D).contains n with
+        | true => rfl
+        | false => rw [← fragFirst_none_iff] at hc; simp [hc] at hf
+      simp only [this, Option.map_some, Bool.true_and]
+      exact validateSpread_ok hp f.tc f.tcpos
+  | inline parent tc dirs p =>
+    obtain ⟨q, hq, hp⟩ := hinv
+    simp only [occParent] at hq
+    subst hq
+    cases tc with
+    | none => simp [spreadOcc, spreadOkAt, Spec.spreadNameOf, primaryFree]
+    | some tp =>
+      obtain ⟨t, tpos⟩ := tp
+      simp only [spreadOcc, spreadOkAt, Spec.spreadNameOf, Bool.true_and]
+      exact validateSpread_ok hp t tpos
+
+theorem all_filterMap {α β : Type} (xs : List α) (f : α → Option β) (p : β → Bool) :
+    (xs.filterMap f).all p = xs.all (fun x => match f x with
+                                              | some y => p y
+                                              | none => true) := by
+  induction xs with
+  | nil => rfl
+  | cons x rest ih =>
+    simp only [List.filterMap_cons, List.all_cons]
+    cases f x <;> simp [ih]
+
 end ApiFu.C04
